@@ -235,6 +235,9 @@ def c08(tier, repo=None):
 
 # ------------------------------------------------------------------------------------------------ C19
 
+REPRO19 = 10
+
+
 def c19_tier(tier):
     if tier == "quick":
         return {"gens": [("dag", 3, 6), ("pregel", 3, 6), ("wf", 3, 6)], "per_mode": 400, "sim": [], "mc_shapes": 5, "mc_timeout": 170}
@@ -255,7 +258,9 @@ def classify19(sc, reason, obs):
     frame = frame.replace("(*", "").replace(")", "").replace("<", "@")          # file-name friendly: schema.stream.send@producer
     if sc["mode"] == "wf" and sc["branch"] and sc["branch"][0]["from"] in blocked:
         b = sc["branch"][0]
-        return "%s:%s/%s" % (reason, frame, "wf-branch-target-also-data-successor" if b.get("bdata") else "wf-branch-routed-copy-without-data-successor")
+        kind = ("wf-branch-target-also-data-successor" if b.get("bdata") else
+                "wf-branch-target-without-data-input" if b.get("bnone") else "wf-branch-routed-copy-without-data-successor")
+        return "%s:%s/%s" % (reason, frame, kind)
     return "%s:%s/%s%s" % (reason, frame, sc["mode"], "+branch" if sc["branch"] else "")
 
 
@@ -303,7 +308,9 @@ def c19(tier, repo=None):
                        "replayed": min(len(fam), P["per_mode"])})
         rnd.shuffle(fam)
         # stratified slice: half of it scenarios with a stream branch (the rarer, richer family)
-        withb = [x for x in fam if x["branch"]][:P["per_mode"] // 2]
+        def src_streams(x):
+            return x["kinds"][x["nodes"].index(x["branch"][0]["from"])] != "V"
+        withb = ([x for x in fam if x["branch"] and src_streams(x)] + [x for x in fam if x["branch"] and not src_streams(x)])[:P["per_mode"] // 2]
         scs += withb + [x for x in fam if not x["branch"]][:P["per_mode"] - len(withb)]
     for mode, n, me in P["sim"]:
         fam, run = streams.gen_run_shapes(mode, n, me, simulate="num=400", depth=14, seed=vlib.SEED)
@@ -312,6 +319,13 @@ def c19(tier, repo=None):
         gstats.append({"mode": mode, "nodes": n, "max_edges": me, "scenario_shapes": len(fam), "tlc_generated": run.generated,
                        "exhaustive_enumeration": False, "replayed": len(fam)})
         scs += fam
+    # fan-in order comes from map iteration: scenarios with a fan-in of >= 2 edges are run three times
+    def fanin(x):
+        cnt = {}
+        for a, b in x["edges"]:
+            cnt[b] = cnt.get(b, 0) + 1
+        return any(v >= 2 for v in cnt.values())
+    scs = scs + [x for x in scs if fanin(x)] * 2
     cases = streams.decorate_run(scs, rnd, prefix="L")
     by_id = {c["id"]: c for c in cases}
     log("  %d streaming-run scenarios (TLC StreamRun, %d states): %s" % (len(cases), gen_states, ", ".join("%s/%d:%d" % (g["mode"], g["nodes"], g["scenario_shapes"]) for g in gstats)))
@@ -332,16 +346,20 @@ def c19(tier, repo=None):
     verdict = vlib.Verdict("C19")
     confirmed, unrepro = [], 0
     if bad:
-        again = [dict(by_id[cid], id=cid + "#r") for cid in list(bad)[:40]]
+        # order-dependent leaks (fan-in order comes from map iteration, select is random): re-run each rejected scenario REPRO19 times;
+        # it counts if ANY re-run is rejected for the same reason -- a leak that happens in some runs is a leak
+        cand = list(bad)[:12]
+        again = [dict(by_id[cid], id="%s#r%d" % (cid, k)) for cid in cand for k in range(REPRO19)]
         lines2, _ = streams.run_leak(again, repo=repo)
         bad2, _, _ = judge19(lines2)
         idx2 = streams.index_cases(lines2)
-        for cid in list(bad)[:40]:
-            if bad2.get(cid + "#r") == bad[cid]:
-                confirmed.append((cid, bad[cid], idx2[cid + "#r"][1]))
+        for cid in cand:
+            hits = [k for k in bad2 if k.split("#")[0] == cid and bad2[k] == bad[cid]]
+            if hits:
+                confirmed.append((cid, bad[cid], idx2[hits[0]][1]))
             else:
                 unrepro += 1
-                log("  note: rejection of %s (%s) did not reproduce: not counted" % (cid, bad[cid]))
+                log("  note: rejection of %s (%s) did not reproduce in %d re-runs: not counted" % (cid, bad[cid], REPRO19))
     for cid, reason, obs in confirmed:
         verdict.violation(classify19(by_id[cid], reason, obs), {"scenario": by_id[cid], "trace": obs}, reason)
     code, n_new, n_known = verdict.finish()
